@@ -12,7 +12,12 @@ from . import lib_units as L
 
 PROPS = ['PGA.Props.C11']
 GEN = ['Chars', 'Units']
-OBLIGATIONS = []
+OBLIGATIONS = ['PGA.Qty.' + t for t in [
+    'C11_incompatible_error', 'C11_incompatible_eq', 'C11_plain_nonzero_refused',
+    'C11_compatible_cmp', 'C11_compatible_cmp_reflected', 'C11_compatible_arith', 'C11_compatible_arith_reflected', 'C11_neg_abs',
+    'C11_mul', 'C11_mul_dim_partial', 'C11_div', 'C11_div_dim_partial', 'C11_div_zero', 'C11_div_same_dim_plain',
+    'C11_pow_int', 'C11_pow_dim_partial', 'C11_pow_dim',
+    'C11_conversion_incompatible_partial', 'C11_conversion_incompatible_integral', 'C11_conversion_full_false', 'C11_conversion_ratio']]
 RULE = ('cases = (operation, left operand, right operand): exhaustive over ordered pairs of 14 operand kinds (the 7 base '
         'dimensions, force, energy, pressure, power, molar entropy, a plain number, the bare zero) x 13 operations '
         '(== != < <= > >= + - * / ** neg abs) + conversion, x 5 magnitude relations of the right operand (equal, smaller, '
